@@ -24,6 +24,8 @@ for r in res:
     for u in r["unsupported"][:3]:
         print("   UNSUPPORTED:", u)
     for o in r["obligations"]:
+        if "-t" in sys.argv and o["time_s"] > 1.5:
+            print(f"   SLOW {o['time_s']:.1f}s {o['name']} path={o['path']} {o['note'][:80]}")
         if o["status"] != "proved" or verbose:
             print(f"   {o['status']:8s} {o['name']}  ({o['note']}) {o.get('model') if o['status']=='refuted' else ''}")
 print(tot, f"{time.time()-t0:.1f}s", len(res), "cases")
